@@ -189,6 +189,7 @@ def apply(r, op, v):
             return "ok:" + repr((g.name, sorted(g.keys()), len(g), sorted(g.attrs.keys()), g.parent.name))
         elif kind in ("set", "setitem"): r[p] = v
         elif kind == "create_dataset": r.create_dataset(p, data=v)
+        elif kind == "setitem_none": r[p] = None
         elif kind in ("del", "delitem"): del r[p]
         elif kind == "attr_set": r[p].attrs[op[2] if len(op) > 2 and op[2] else "k"] = v
         elif kind == "attr_del": del r[p].attrs[op[2] if len(op) > 2 and op[2] else "k"]
